@@ -685,3 +685,120 @@ def run(chk):
     _travstack_rule(chk, prog)
     _countdown_rule(chk, prog)
     _step_rule(chk, prog)
+    _freshbudget_rule(chk, prog, cg)
+    _protowalk_rule(chk, prog)
+
+
+def _freshbudget_rule(chk, prog, cg):
+    """A function whose recursion is bounded by a depth PARAMETER (tested against 0, handed on minus one) is bounded
+    only per entry.  If one of the functions that starts it with a fresh constant can itself be reached from inside the
+    recursion, every such re-entry gets a whole new budget: the reachable C depth is the product of the budgets (the
+    compiler's quasiquote: 1024 levels per `~`, re-entered through unquote -> janetc_value -> janetc_quasiquote), which
+    is more stack than there is.  Inside a cycle the start value has to come from the budget that is already running."""
+    rule = "C19-FRESHBUDGET"
+    chk.rule(rule, "a depth-parameter recursion is not restarted with a fresh constant budget from inside its own call cycle")
+    entries = {}
+    for fn in prog.all_funcs():
+        ps = [p["n"] for p in fn.params]
+        for i, pn in enumerate(ps):
+            tested = any(x.k == "bin" and x.op in ("==", "<=", "<") and is_ref(strip_casts(x.kids[0]), pn) and strip_casts(x.kids[1]).v == 0 for x in fn.nodes)
+            stepped = any(len(c.args) > i and strip_casts(c.args[i]).k == "bin" and strip_casts(c.args[i]).op == "-"
+                          and is_ref(strip_casts(strip_casts(c.args[i]).kids[0]), pn) and strip_casts(strip_casts(c.args[i]).kids[1]).v == 1
+                          for c in fn.calls(fn.name))
+            if tested and stepped:
+                entries[cg.fid(fn)] = (fn, i)
+    if len(entries) < 2:
+        raise AnalysisBroken("depth-parameter recursions not recognised (%d)" % len(entries))
+
+    def reach(src):
+        seen, work = {src}, [src]
+        while work:
+            v = work.pop()
+            for w in cg.callees(v):
+                if w not in seen:
+                    seen.add(w)
+                    work.append(w)
+        return seen
+    n = 0
+    for eid, (efn, i) in sorted(entries.items(), key=lambda kv: kv[1][0].name):
+        from_e = reach(eid)
+        for gid, g in cg.funcs.items():
+            if gid == eid:
+                continue
+            for c in g.calls(efn.name):
+                if cg.resolve_name(c.callee, g.tu) != eid or len(c.args) <= i:
+                    continue
+                n += 1
+                chk.instance(rule)
+                chk.analysed(g)
+                a = strip_casts(c.args[i])
+                fresh = a.v is not None
+                if fresh and gid in from_e:
+                    path = cg.path(eid, {gid}) or []
+                    chk.violation(rule, g.tu.name, g.name, "%s:%s" % (efn.name, a.text()[:24]), c.loc,
+                                  "`%s` starts %s with the constant budget %s, and %s is itself reachable from %s (%s): every re-entry gets "
+                                  "a fresh budget, so the nesting the C stack has to carry is the product of the budgets, not their sum" % (
+                                      c.text()[:50], efn.name, a.text()[:24], g.name, efn.name,
+                                      " -> ".join(x[1] if isinstance(x, tuple) else str(x) for x in path[:6])))
+                else:
+                    chk.ok(rule, "%s: %s started %s" % (g.name, efn.name, "from outside its cycle" if gid not in from_e else "with the running budget `%s`" % a.text()[:20]))
+    chk.floor(rule, 3, n)
+
+
+PROTOWALK_EXCEPTIONS = {
+    ("peg.c", "peg_compile1"): "walks the chain of grammar tables the PEG compiler itself builds (each nested grammar is a fresh clone whose "
+                               "proto is the enclosing builder table), never a chain a program can close into a cycle",
+}
+
+
+def _protowalk_rule(chk, prog):
+    """table/setproto lets a program close a table's prototype chain into a cycle.  Lookups survive that because they
+    give up after JANET_MAX_PROTO_DEPTH steps; every other loop that follows JanetTable.proto needs a bound as well."""
+    rule = "C19-PROTOWALK"
+    chk.rule(rule, "every loop that follows a table's prototype chain is bounded by a counter (prototype chains can be cyclic)")
+    n = 0
+    for fn in prog.all_funcs():
+        for lp in fn.nodes:
+            if lp.k not in ("for", "while", "do"):
+                continue
+            steps = []
+            for x in lp.walk():
+                if x.k == "asg" and x.op == "=" and is_ref(x.kids[0]):
+                    r = strip_casts(x.kids[1])
+                    if r.k == "mem" and r.field == "proto" and r.rec == "JanetTable" and is_ref(strip_casts(r.kids[0]), x.kids[0].name):
+                        steps.append(x)
+            # a chain the loop is building itself: `V->proto = janet_table(...); V = V->proto;`
+            built = set()
+            for x in lp.walk():
+                if x.k == "asg" and x.op == "=" and x.kids[0].k == "mem" and x.kids[0].field == "proto" and \
+                        strip_casts(x.kids[1]).k == "call" and (strip_casts(x.kids[1]).callee or "").startswith("janet_table"):
+                    built.add(strip_casts(x.kids[0].kids[0]).text())
+            steps = [x for x in steps if x.kids[0].name not in built]
+            if not steps:
+                continue
+            # innermost loop only
+            if any(y is not lp and y.k in ("for", "while", "do") and any(s_ in list(y.walk()) for s_ in steps) for y in lp.walk()):
+                continue
+            n += 1
+            chk.instance(rule)
+            chk.analysed(fn)
+            stepped = set()
+            for x in lp.walk():
+                if x.k == "un" and x.op in ("pre--", "post--", "pre++", "post++") and is_ref(x.kids[0]):
+                    stepped.add(x.kids[0].name)
+                if x.k == "asg" and x.op in ("-=", "+=") and is_ref(x.kids[0]):
+                    stepped.add(x.kids[0].name)
+            conds = [k for k in lp.kids[:3] if k is not None and k is not (lp.kids[3] if lp.k == "for" and len(lp.kids) > 3 else None)]
+            cond = lp.kids[1] if lp.k == "for" else (lp.kids[0] if lp.k == "while" else lp.kids[-1])
+            counted = cond is not None and any(is_ref(y) and y.name in stepped for y in cond.walk())
+            key = (fn.tu.name, fn.name)
+            if counted:
+                chk.ok(rule, "%s: prototype walk bounded by a counter in the loop condition" % fn.name)
+            elif key in PROTOWALK_EXCEPTIONS:
+                chk.exception(rule, "%s:%s" % key, PROTOWALK_EXCEPTIONS[key])
+                chk.ok(rule, "%s: prototype walk over a chain it built itself (exception)" % fn.name)
+            else:
+                chk.violation(rule, fn.tu.name, fn.name, "proto-walk:%s" % steps[0].kids[0].name, steps[0].loc,
+                              "the loop around `%s` follows the prototype chain with no step counter in its condition: "
+                              "(table/setproto a b) (table/setproto b a) makes the chain cyclic and the loop never ends" % steps[0].text()[:40])
+    chk.floor(rule, 3, n)
